@@ -50,7 +50,7 @@ static void w_setup(int cfg, int thorough)
     w_ops[w_nops++] = OP(O_SHRINK, 0, 0); w_ops[w_nops++] = OP(O_CLEAR, 0, 0); w_ops[w_nops++] = OP(O_SORT, 0, 0); w_ops[w_nops++] = OP(O_REVERSE, 0, 0);
     w_ops[w_nops++] = OP(O_RESIZE, 1, A_0); w_ops[w_nops++] = OP(O_RESIZE, 1, A_2); w_ops[w_nops++] = OP(O_RESERVE, 1, A_3); w_ops[w_nops++] = OP(O_CLEAR, 1, 0);
     (void)v;
-    w_ops[w_nops++] = OP(O_SWAP, 0, 0);
+    w_ops[w_nops++] = OP(O_SWAP, 0, 0); w_ops[w_nops++] = OP(O_SWAP, 1, 0);      /* v == 1: swap(v0, v0) */
 }
 static const char *w_config_desc(void) { return cfgdesc; }
 
@@ -226,6 +226,7 @@ static void w_apply(mc_op_t o)
         break;
     case O_SWAP: {
         struct { size_t es; int xt; size_t size, cap; int vals[MAXSZ + 2]; } t;
+        if (v == 1) { SHIM_CALL(ab, cstl_vector_swap(&V[0], &V[0])); break; }      /* swapping a vector with itself changes nothing */
         if (M[0].es != M[1].es || M[0].xt != M[1].xt) MC_COUNT(K_SWAP_DIFFERENT);
         SHIM_CALL(ab, cstl_vector_swap(&V[0], &V[1]));
         memcpy(&t, &M[0], sizeof t); memcpy(&M[0], &M[1], sizeof t); memcpy(&M[1], &t, sizeof t);
@@ -275,7 +276,7 @@ static void w_opname(mc_op_t o, char *b, size_t n)
 {
     static const char *nm[] = { "?", "resize", "reserve", "shrink_to_fit", "clear", "sort", "reverse", "swap" };
     if (OC(o) == O_RESIZE || OC(o) == O_RESERVE) snprintf(b, n, "%s(v%d,%s)", nm[OC(o)], OV(o), argname[OA(o)]);
-    else if (OC(o) == O_SWAP) snprintf(b, n, "swap(v0,v1)");
+    else if (OC(o) == O_SWAP) snprintf(b, n, OV(o) ? "swap(v0,v0)" : "swap(v0,v1)");
     else snprintf(b, n, "%s(v%d)", nm[OC(o)], OV(o));
 }
 static int w_nontrivial(void) { return M[0].size + M[1].size >= 2 && (M[0].cap > M[0].size || M[1].cap > M[1].size); }
